@@ -1,4 +1,5 @@
 // One translation unit per H_DIM: PPolyND<H_DIM, ORDER> for ORDER in {Dynamic, 4, 6, 8}, object slots, all evaluation routes.
+#include <cstring>
 #include "common.hpp"
 #include "SplineTrajectory.hpp"
 #include <stdexcept>
@@ -13,7 +14,7 @@ namespace
         virtual ~PPBase() {}
         virtual PPBase *clone() const = 0;
         virtual bool assignFrom(const PPBase &o) = 0;
-        virtual void init(bool ctor, const std::vector<double> &b, const std::vector<double> &data, long rows, int nc) = 0;
+        virtual void init(int ctor, const std::vector<double> &b, const std::vector<double> &data, long rows, int nc) = 0;
         virtual void info(H::Out &o) const = 0;
         virtual void eval(H::Out &o, double t, int k) const = 0;
         virtual void evalh(H::Out &o, double t, int k, int hint) const = 0;
@@ -48,13 +49,27 @@ namespace
                     m(i, j) = data[i * D + j];
             return m;
         }
-        void init(bool ctor, const std::vector<double> &b, const std::vector<double> &data, long rows, int nc) override
+        // ctor: 1 construct, 0 update, 2.. update handing the object its *own* members back wherever the request's data are
+        // bit-identical to them (2: coefficients, 3: breakpoints, 4: both) - the arguments then alias the members
+        void init(int ctor, const std::vector<double> &b, const std::vector<double> &data, long rows, int nc) override
         {
             Mat m = toMat(data, rows);
-            if (ctor)
+            if (ctor == 1)
+            {
                 pp = PP(b, m, nc);
-            else
-                pp.update(b, m, nc);
+                return;
+            }
+            const Mat &own_c = pp.getCoefficients();
+            const std::vector<double> &own_b = pp.getBreakpoints();
+            bool same_c = own_c.rows() == m.rows() && own_c.cols() == m.cols() && m.size() > 0 &&
+                          std::memcmp(own_c.data(), m.data(), sizeof(double) * (size_t)m.size()) == 0;
+            bool same_b = own_b.size() == b.size() && !b.empty() &&
+                          std::memcmp(own_b.data(), b.data(), sizeof(double) * b.size()) == 0;
+            bool ac = (ctor == 2 || ctor == 4) && same_c, ab = (ctor == 3 || ctor == 4) && same_b;
+            if (ac && ab) pp.update(own_b, own_c, nc);
+            else if (ac) pp.update(b, own_c, nc);
+            else if (ab) pp.update(own_b, m, nc);
+            else pp.update(b, m, nc);
         }
         void info(H::Out &o) const override
         {
@@ -167,7 +182,7 @@ namespace
                 auto &s = slots()[slot];
                 if (ctor == 1 || !s || s->fo() != (fo < 0 ? Eigen::Dynamic : (int)fo))
                     s.reset(make((int)fo));
-                s->init(ctor == 1, b, data, rows, (int)nc);
+                s->init((int)ctor, b, data, rows, (int)nc);
                 s->info(o);
             });
             H::reg("pp_eval" + SUF, [](H::Reader &r, H::Out &o) {
